@@ -605,6 +605,20 @@ int QSexact_optimal_test (mpq_QSdata * p,
 			mpq_sub (num1, num1, num2);
 		}
 		mpq_set (dz[col], num1);
+		/* the basis is handed back to the caller as an optimal basis: the dual
+		 * vector has to be the basic one, i.e. price out every basic column to
+		 * zero (a degenerate basic column at a bound would pass the complementary
+		 * slackness tests below with a non-zero reduced cost) */
+		if (basis->cstat[i] == QS_COL_BSTAT_BASIC && mpq_cmp_ui (dz[col], 0UL, 1UL) != 0)
+		{
+			rval = 0;
+			if(!msg_lvl)
+			{
+				MESSAGE(0, "basic variable (%s,%d) has reduced cost %lg", qslp->colnames[i],
+								 i, mpq_get_d(dz[col]));
+			}
+			goto CLEANUP;
+		}
 		/* objective update */
 		if (objsense * mpq_cmp_ui (dz[col], 0UL, 1UL) > 0)
 		{
@@ -675,6 +689,16 @@ int QSexact_optimal_test (mpq_QSdata * p,
 			mpq_sub (num1, num1, num2);
 		}
 		mpq_set (dz[col], num1);
+		if (basis->rstat[i] == QS_ROW_BSTAT_BASIC && mpq_cmp_ui (dz[col], 0UL, 1UL) != 0)
+		{
+			rval = 0;
+			if(!msg_lvl)
+			{
+				MESSAGE(0, "basic logical of row (%s,%d) has reduced cost %lg", qslp->rownames[i],
+								 i, mpq_get_d(dz[col]));
+			}
+			goto CLEANUP;
+		}
 		/* objective update */
 		if (objsense * mpq_cmp_ui (dz[col], 0UL, 1UL) > 0)
 		{
